@@ -126,9 +126,9 @@ static void body(const struct dcfg *c, int tier)
   snprintf(script, sizeof script, d_scripts[c->script], c->size, c->size);
   memset(&vk_cfg, 0, sizeof vk_cfg);
   vk_cfg.sched_on = 1;
-  vk_cfg.sched_bound = tier ? 3 : (c->size <= 1 && c->sm == SM_REC && !c->deadline ? 2 : 1);
-  if (c->size > CAP) vk_cfg.sched_bound = tier ? 2 : 1;
-  vk_cfg.total_bound = tier ? 3 : 2;
+  vk_cfg.sched_bound = tier ? (c->size <= 1 ? 3 : 2) : (c->size <= 1 && c->sm == SM_REC && !c->deadline ? 2 : 1);
+  if (c->size > CAP) vk_cfg.sched_bound = 1;
+  vk_cfg.total_bound = 2;
   vk_cfg.vlimit = 24;
   vk_cfg.hello_lite = 1;
   if (c->deadline) {
@@ -223,7 +223,8 @@ static void body(const struct dcfg *c, int tier)
     for (int i = 0; i < S->nevents; i++) {
       struct vk_event *e = &S->ev[i];
       if (e->api != drain_api || e->side != 0 || !e->blocked) continue;
-      if (e->t + e->blocked_ms > D) {
+      /* (a call entered at or after the deadline belongs to the stop sequence that run_ex performs afterwards: that one may wait) */
+      if (e->t < D && e->t + e->blocked_ms > D) {
         vk_violation("C16", "blocked-past-deadline", key, "inside drain/run a %s call entered at +%lld ms stayed blocked for %d ms, past the deadline at +%d ms", vk_call_names[e->call],
                      (long long) (e->t - t0), e->blocked_ms, c->deadline);
         break;
